@@ -146,6 +146,53 @@ func (s *authSys) Key() string {
 	return d.String() + "\nissued=" + sb.String() + fmt.Sprintf("\nnow=%v", s.net.now.Sub(authEpoch))
 }
 
+// scopeSet is an independent model of a scope text: the set of (type, resource, action) triples.
+func scopeSet(text string) map[[3]string]bool {
+	set := map[[3]string]bool{}
+	for _, f := range strings.Fields(text) {
+		parts := strings.Split(f, ":")
+		if len(parts) != 3 {
+			set[[3]string{f, "", ""}] = true
+			continue
+		}
+		for _, a := range strings.Split(parts[2], ",") {
+			set[[3]string{parts[0], parts[1], a}] = true
+		}
+	}
+	return set
+}
+
+func setUnion(sets ...map[[3]string]bool) map[[3]string]bool {
+	out := map[[3]string]bool{}
+	for _, s := range sets {
+		for k := range s {
+			out[k] = true
+		}
+	}
+	return out
+}
+
+func setEqual(a, b map[[3]string]bool) bool {
+	if len(a) != len(b) {
+		return false
+	}
+	for k := range a {
+		if !b[k] {
+			return false
+		}
+	}
+	return true
+}
+
+func setContains(a, b map[[3]string]bool) bool {
+	for k := range b {
+		if !a[k] {
+			return false
+		}
+	}
+	return true
+}
+
 func challengeScopeOf(h http.Header) (string, bool) {
 	for _, ch := range h["Www-Authenticate"] {
 		if !strings.HasPrefix(strings.ToLower(ch), "bearer") {
@@ -247,22 +294,25 @@ func c10Monitor(s *authSys, ev authEvent, trip int, resp *http.Response, err err
 				q, _ := url.ParseQuery(x.Query)
 				text = strings.Join(q["scope"], " ")
 			}
-			asked := ociauth.ParseScope(text)
-			chal := ociauth.ParseScope(lastChallenge)
-			full := chal.Union(required).Union(desired)
+			// compared as plain sets of triples, independently of ociauth.Scope (which is itself under test)
+			asked := scopeSet(text)
+			chal := scopeSet(lastChallenge)
+			reqSet, desSet := scopeSet(ev.Required), scopeSet(ev.Desired)
+			full := setUnion(chal, reqSet, desSet)
 			if !haveChallenge {
-				full = required.Union(desired)
+				full = setUnion(reqSet, desSet)
 			}
 			switch {
-			case asked.Equal(full):
-				if haveChallenge && chal.Contains(required.Union(desired)) && !chal.IsEmpty() && text != lastChallenge {
+			case setEqual(asked, full):
+				if haveChallenge && setContains(chal, setUnion(reqSet, desSet)) && len(chal) > 0 && text != lastChallenge {
 					viol("challenge-scope-text-not-kept", fmt.Sprintf("scope text %q verbatim (required and desired add nothing)", lastChallenge), fmt.Sprintf("%q", text))
 				}
-			case haveChallenge && asked.Equal(chal):
+			case haveChallenge && setEqual(asked, chal):
 				// fallback after the token server refused the wider request
 			default:
-				viol("token-request-scope", fmt.Sprintf("challenge+required+desired = %q (or the challenge scope alone on the fallback)", full.Canonical().String()), fmt.Sprintf("%q", text))
+				viol("token-request-scope", fmt.Sprintf("challenge+required+desired = %q + %q + %q (or the challenge scope alone on the fallback)", lastChallenge, ev.Required, ev.Desired), fmt.Sprintf("%q", text))
 			}
+			_ = desired
 		}
 	}
 	if before.mustReuse && lastRegStatus == 200 && regTrips != 1 {
@@ -394,6 +444,34 @@ func c10RunBatch(r *vcore.Run, b c10Batch, bound int) vsched.Stats {
 				r.Violate("batch", "C10/batch/more-than-two-attempts", bb, "<= 2", fmt.Sprint(regTrips))
 			}
 		}
+		// epilogue (sequential, after every thread has finished): whatever the threads obtained must be
+		// in the cache now: repeating each thread's request must not need another token request
+		for i, ev := range b.Threads {
+			required := ociauth.ParseScope(ev.Required)
+			must := false
+			for _, it := range n.issued {
+				if it.Host == ev.Host && !n.now.Add(2*time.Second).After(it.Issued.Add(it.Lifetime)) && it.Scope.Contains(required) {
+					must = true
+				}
+			}
+			if !must {
+				continue
+			}
+			trip := 1000 + i
+			ctx := context.WithValue(context.Background(), authTripKey{}, trip)
+			ctx = ociauth.ContextWithRequestInfo(ctx, ociauth.RequestInfo{RequiredScope: required})
+			req, _ := http.NewRequestWithContext(ctx, "GET", "https://"+ev.Host+"/v2/x/manifests/t", nil)
+			req.Header.Set("X-Demand", ev.Required)
+			if resp, err := sys.tr.RoundTrip(req); err == nil && resp != nil {
+				resp.Body.Close()
+			}
+			for _, x := range n.sent {
+				if x.Trip == trip && x.Kind == "token" {
+					r.Violate("batch", "C10/batch/token-lost-after-concurrent-requests", bb, "a token issued during the batch is reused afterwards (no token request)", trafficText(n, trip))
+					break
+				}
+			}
+		}
 		r.Outcome(fmt.Sprintf("batch-tokens=%d", len(n.issued)))
 		return true
 	})
@@ -481,6 +559,10 @@ func c10Events(cfgs []*authHostCfg, thorough bool) []authEvent {
 			evs = append(evs, authEvent{K: "req", Host: c.Host, Required: rq})
 			if rq == "repository:x:pull" || (thorough && rq != "") {
 				evs = append(evs, authEvent{K: "req", Host: c.Host, Required: rq, Desired: "repository:y:pull"})
+			}
+			if rq == "repository:x:pull" {
+				// desired adds only an action on a repository the challenge already names
+				evs = append(evs, authEvent{K: "req", Host: c.Host, Required: rq, Desired: "repository:x:push"})
 			}
 		}
 	}
